@@ -246,6 +246,10 @@ Definition initStorage (c : cfg) : act vol :=
 
 (* putInternal(ctx, req, blockOnOverflow)'s loop "for queueSize+reqSize > capacity": Offer passes
    set.blockOnOverflow and then waits on hasMoreSpace instead of returning ErrQueueIsFull; recovery passes false *)
+(* putInternal's first test (commit f7a3004ea): "if blockOnOverflow && reqSize > capacity { return errSizeTooLarge }" *)
+Definition too_large (c : cfg) (r : N) : bool :=
+  blockOnOverflow c && Z.ltb (capacity c) (sizeof c r).
+
 Definition would_wait (c : cfg) (v : vol) (r : N) : bool :=
   blockOnOverflow c && Z.ltb (capacity c) (qsize v + sizeof c r).
 
@@ -437,6 +441,7 @@ Definition sstate := (vol * list handle)%type.
 Inductive res :=
 | ROffer (accepted : bool)
 | ROfferWait                      (* blockOnOverflow: the call waits; the script cancels its context *)
+| ROfferTooLarge                  (* blockOnOverflow and reqSize > capacity: errSizeTooLarge, nothing stored *)
 | RRead (index r : N)
 | RStopped
 | RBlocked
@@ -454,7 +459,8 @@ Definition run_op (c : cfg) (s : sstate) (o : op) : act (sstate * res) :=
   let '(v, out) := s in
   match o with
   | Offer r =>
-      if would_wait c v r then Done ((v, out), ROfferWait)
+      if too_large c r then Done ((v, out), ROfferTooLarge)
+      else if would_wait c v r then Done ((v, out), ROfferWait)
       else bind (putInternal c v r) (fun x => Done ((fst x, out), ROffer (snd x)))
   | Read =>
       bind (readQ v) (fun x =>
@@ -554,3 +560,38 @@ Definition finals (evs : list event) : list N :=
   flat_map (fun e => match e with EvFinal r => [r] | _ => [] end) evs.
 Definition handoffs (evs : list event) : list N :=
   flat_map (fun e => match e with EvHandoff r => [r] | _ => [] end) evs.
+
+(* ---------------------------------------------------------------------------------------------
+   Configuration plumbing: which queue an exporter gets
+   (internal/queue_sender.go newQueueBatchConfig, queuebatch/queue_batch.go newQueueBatch)
+   --------------------------------------------------------------------------------------------- *)
+(* queuebatch.Config: enabled, wait_for_result, sizer (0 requests, 1 items, 2 bytes), queue_size, block_on_overflow,
+   storage (None = in-memory queue; Some id = persistent queue on that storage extension), num_consumers,
+   batch (flush_timeout, min_size, max_size) *)
+Record qconfig := mkQConfig {
+  q_enabled : bool; q_wait : bool; q_sizer : nat; q_size : Z; q_block : bool;
+  q_storage : option nat; q_consumers : Z; q_batch : option (Z * Z * Z)
+}.
+(* BatcherConfig (the deprecated exporter batcher option): enabled, flush_timeout, min_size, max_size *)
+Record bconfig := mkBConfig { b_enabled : bool; b_flush : Z; b_min : Z; b_max : Z }.
+
+(* func newQueueBatchConfig(qCfg, bCfg); [maxint] = math.MaxInt, [ncpu] = runtime.NumCPU() *)
+Definition newQueueBatchConfig (maxint ncpu : Z) (q : qconfig) (b : bconfig) : qconfig :=
+  if negb (b_enabled b) then q
+  else if q_enabled q then
+    mkQConfig (q_enabled q) (q_wait q) (q_sizer q) (q_size q) (q_block q) (q_storage q) (q_consumers q)
+              (Some (b_flush b, b_min b, b_max b))
+  else
+    mkQConfig true true 0 maxint true None ncpu (Some (b_flush b, b_min b, b_max b)).
+
+(* newQueueBatch: the queue that is built (a batch configuration forces one consumer) *)
+Inductive qkind :=
+| QMemory (cap : Z) (wait block : bool) (consumers : Z)
+| QPersistent (cap : Z) (block : bool) (storage signal owner : nat) (consumers : Z).
+
+Definition queue_of (signal owner : nat) (q : qconfig) : qkind :=
+  let consumers := match q_batch q with Some _ => 1%Z | None => q_consumers q end in
+  match q_storage q with
+  | None => QMemory (q_size q) (q_wait q) (q_block q) consumers
+  | Some s => QPersistent (q_size q) (q_block q) s signal owner consumers
+  end.
